@@ -957,6 +957,23 @@ fn reject_grid() -> Vec<Case> {
             }
         }
     }
+    // hex escapes take digits only: a sign, a blank or an underscore in any digit position is malformed
+    for q in ['\'', '"'] {
+        for prefix in ["", "f", "b"] {
+            let kind = if prefix == "b" { "bytes" } else { "str" };
+            let forms: &[(&str, usize)] = if prefix == "b" { &[("x", 2), ("X", 2)] } else { &[("x", 2), ("X", 2), ("u", 4), ("U", 8)] };
+            for (letter, n) in forms {
+                for bad in ["+", "-", " ", "_", ".", "g", "G"] {
+                    for pos in 0..*n {
+                        let mut digits: Vec<String> = (0..*n).map(|i| if i + 1 == *n { "f".to_string() } else { "0".to_string() }).collect();
+                        digits[pos] = bad.to_string();
+                        let esc = format!("\\{}{}", letter, digits.concat());
+                        v.push(reject(wrap(prefix, q, "a", &esc, "b"), &format!("{}-hex-escape-non-digit", kind)));
+                    }
+                }
+            }
+        }
+    }
     // a high surrogate followed by a second \u escape: still an invalid code point, never half of a pair
     for prefix in ["", "f"] {
         for q in ['\'', '"'] {
